@@ -1,10 +1,279 @@
+// mverif: static verifier for the mangos properties C01..C20.
+//
+//	mverif check <Cxx> [--tier quick|thorough] [--repo DIR] [--verif DIR]
+//	mverif explain <report.json>
+//	mverif one <Cxx> --config goos/goarch/cgoN [--overlay file=replacement]... --out FILE   (internal)
+//	mverif list
 package main
 
 import (
-	_ "golang.org/x/tools/go/callgraph/vta"
-	_ "golang.org/x/tools/go/cfg"
-	_ "golang.org/x/tools/go/packages"
-	_ "golang.org/x/tools/go/ssa/ssautil"
+	"encoding/json"
+	"fmt"
+	"os"
+	"os/exec"
+	"runtime/debug"
+	"strconv"
+	"strings"
+	"sync"
+	"time"
+
+	"mverif/an"
 )
 
-func main() {}
+func usage() {
+	fmt.Fprintln(os.Stderr, "usage: mverif check <Cxx> [--tier quick|thorough] | explain <report.json> | list | selftest | mutants <Cxx|all>")
+	os.Exit(2)
+}
+
+type opts struct {
+	tier     string
+	repo     string
+	verif    string
+	config   string
+	out      string
+	overlays []string
+	args     []string
+}
+
+func parse(args []string) opts {
+	o := opts{tier: os.Getenv("VERIF_TIER"), repo: "/repo", verif: "/verif"}
+	if o.tier == "" {
+		o.tier = "quick"
+	}
+	for i := 0; i < len(args); i++ {
+		a := args[i]
+		next := func() string {
+			i++
+			if i >= len(args) {
+				usage()
+			}
+			return args[i]
+		}
+		switch a {
+		case "--tier":
+			o.tier = next()
+		case "--repo":
+			o.repo = next()
+		case "--verif":
+			o.verif = next()
+		case "--config":
+			o.config = next()
+		case "--out":
+			o.out = next()
+		case "--overlay":
+			o.overlays = append(o.overlays, next())
+		default:
+			o.args = append(o.args, a)
+		}
+	}
+	return o
+}
+
+func parseConfig(s, repo string) an.Config {
+	c := an.Config{Dir: repo, GOOS: "linux", GOARCH: "amd64"}
+	parts := strings.Split(s, "/")
+	if len(parts) >= 1 && parts[0] != "" {
+		c.GOOS = parts[0]
+	}
+	if len(parts) >= 2 {
+		c.GOARCH = parts[1]
+	}
+	if len(parts) >= 3 {
+		c.Cgo = parts[2] == "cgo1"
+	}
+	return c
+}
+
+// runOne loads one configuration and evaluates one property; never panics outward.
+func runOne(prop string, conf an.Config) (rep *an.Report) {
+	rep = an.NewReport(prop, conf.String())
+	defer func() {
+		if e := recover(); e != nil {
+			rep.Unk("analyser", "panic", "-", fmt.Sprintf("analyser panic: %v", e), strings.Split(string(debug.Stack()), "\n")[:12]...)
+		}
+	}()
+	pi := an.Lookup(prop)
+	if pi == nil {
+		rep.Unk("analyser", "unknown-property", "-", "no check registered for "+prop)
+		return
+	}
+	p, err := an.Load(conf)
+	if err != nil {
+		rep.Unk("analyser", "load", "-", err.Error())
+		return
+	}
+	rep.Count("load.module_packages", len(p.Pkgs))
+	rep.Count("load.in_scope_functions", len(p.Funcs))
+	pi.Run(p, rep)
+	return
+}
+
+var thoroughConfigs = []string{
+	"linux/amd64/cgo0", "linux/386/cgo0", "windows/amd64/cgo0", "darwin/amd64/cgo0",
+	"freebsd/amd64/cgo0", "solaris/amd64/cgo0",
+}
+
+func main() {
+	if len(os.Args) < 2 {
+		usage()
+	}
+	cmd := os.Args[1]
+	o := parse(os.Args[2:])
+	switch cmd {
+	case "dump-e3":
+		p, err := an.Load(parseConfig(o.config, o.repo))
+		if err != nil {
+			fmt.Println(err)
+			os.Exit(1)
+		}
+		an.DumpE3(p)
+	case "list":
+		for _, id := range an.AllProps() {
+			fmt.Println(id)
+		}
+	case "one":
+		// internal: evaluate one property on one configuration and dump the report
+		if len(o.args) != 1 || o.out == "" {
+			usage()
+		}
+		conf := parseConfig(o.config, o.repo)
+		if len(o.overlays) > 0 {
+			conf.Overlay = map[string][]byte{}
+			for _, ov := range o.overlays {
+				kv := strings.SplitN(ov, "=", 2)
+				b, err := os.ReadFile(kv[1])
+				if err != nil {
+					fmt.Fprintln(os.Stderr, err)
+					os.Exit(2)
+				}
+				conf.Overlay[kv[0]] = b
+			}
+		}
+		rep := runOne(o.args[0], conf)
+		b, _ := json.Marshal(rep)
+		if err := os.WriteFile(o.out, b, 0o644); err != nil {
+			fmt.Fprintln(os.Stderr, err)
+			os.Exit(2)
+		}
+	case "check":
+		if len(o.args) != 1 {
+			usage()
+		}
+		os.Exit(check(o.args[0], o))
+	case "explain":
+		if len(o.args) != 1 {
+			usage()
+		}
+		os.Exit(explain(o.args[0], o))
+	case "selftest":
+		os.Exit(an.SelfTest(o.verif))
+	case "mutants":
+		if len(o.args) != 1 {
+			usage()
+		}
+		res := an.RunMutants(o.verif, o.repo, o.args[0], selfExe())
+		b, _ := json.MarshalIndent(res, "", " ")
+		fmt.Println(string(b))
+		if res.Missed > 0 {
+			os.Exit(1)
+		}
+	default:
+		usage()
+	}
+}
+
+func selfExe() string {
+	e, err := os.Executable()
+	if err != nil {
+		return os.Args[0]
+	}
+	return e
+}
+
+func check(prop string, o opts) int {
+	start := time.Now()
+	seed, _ := strconv.Atoi(os.Getenv("VERIF_SEED"))
+	pi := an.Lookup(prop)
+	if pi == nil {
+		fmt.Printf("VIOLATION property=%s replay=-\n  no check registered\n", prop)
+		return 1
+	}
+	var reps []*an.Report
+	extra := map[string]interface{}{}
+	if o.tier != "thorough" {
+		reps = append(reps, runOne(prop, parseConfig("linux/amd64/cgo0", o.repo)))
+	} else {
+		// one subprocess per configuration (bounded memory), in parallel
+		reps = make([]*an.Report, len(thoroughConfigs))
+		var wg sync.WaitGroup
+		sem := make(chan struct{}, 6)
+		tmp, err := os.MkdirTemp("", "mverif-")
+		if err != nil {
+			fmt.Printf("VIOLATION property=%s replay=-\n  %v\n", prop, err)
+			return 1
+		}
+		defer os.RemoveAll(tmp)
+		for i, c := range thoroughConfigs {
+			wg.Add(1)
+			go func(i int, c string) {
+				defer wg.Done()
+				sem <- struct{}{}
+				defer func() { <-sem }()
+				out := fmt.Sprintf("%s/%d.json", tmp, i)
+				cmd := exec.Command(selfExe(), "one", prop, "--config", c, "--repo", o.repo, "--verif", o.verif, "--out", out)
+				cmd.Stderr = os.Stderr
+				rep := an.NewReport(prop, c)
+				if err := cmd.Run(); err != nil {
+					rep.Unk("analyser", "subprocess", "-", fmt.Sprintf("config %s: %v", c, err))
+				} else if b, err := os.ReadFile(out); err != nil {
+					rep.Unk("analyser", "subprocess", "-", err.Error())
+				} else if err := json.Unmarshal(b, rep); err != nil {
+					rep.Unk("analyser", "subprocess", "-", err.Error())
+				}
+				reps[i] = rep
+			}(i, c)
+		}
+		wg.Wait()
+		// sensitivity: self-test corpus and overlay mutants (evidence only)
+		st := an.SelfTestSummary(o.verif)
+		extra["selftest"] = st
+		if !st.OK {
+			r := an.NewReport(prop, "selftest")
+			r.Bad("analyser", "selftest", "-", "engine self-test corpus failed: "+strings.Join(st.Failures, "; "))
+			reps = append(reps, r)
+		}
+		mr := an.RunMutants(o.verif, o.repo, prop, selfExe())
+		extra["mutants"] = mr
+	}
+	return an.Finish(o.verif, prop, o.tier, seed, reps, extra, pi.Assumptions, time.Since(start).Seconds(), pi.Explanation)
+}
+
+// explain re-evaluates the obligation recorded in a replay file on the current tree.
+func explain(path string, o opts) int {
+	b, err := os.ReadFile(path)
+	if err != nil {
+		fmt.Fprintln(os.Stderr, err)
+		return 2
+	}
+	var ob an.Ob
+	if err := json.Unmarshal(b, &ob); err != nil {
+		fmt.Fprintln(os.Stderr, err)
+		return 2
+	}
+	conf := parseConfig(ob.Config, o.repo)
+	rep := runOne(ob.Prop, conf)
+	for _, x := range rep.Obs {
+		if x.Rule == ob.Rule && x.Key == ob.Key {
+			fmt.Printf("%s %s %s\n  status now: %s\n  at: %s\n  %s\n", x.Prop, x.Rule, x.Key, x.Status, x.Pos, x.Msg)
+			for _, w := range x.Witness {
+				fmt.Println("     ", w)
+			}
+			if x.Status != an.Discharged {
+				return 1
+			}
+			return 0
+		}
+	}
+	fmt.Printf("%s %s %s: obligation no longer produced on the current tree (recorded: %s at %s: %s)\n", ob.Prop, ob.Rule, ob.Key, ob.Status, ob.Pos, ob.Msg)
+	return 0
+}
